@@ -269,7 +269,25 @@ func TestProp_DataURIAny(t *testing.T) {
 		}
 		// Mediatype on the same bytes, handed over without spare capacity (a read behind the argument panics)
 		exact := append(make([]byte, 0, len(b)), b...)
-		parse.Mediatype(exact[:len(b):len(b)])
+		mtAny, params := parse.Mediatype(exact[:len(b):len(b)])
+		// what it returns is the caller's: changed by the caller, the next call on the same bytes returns the same again
+		mtCopy, paramsCopy := string(mtAny), map[string]string{}
+		for k, v := range params {
+			paramsCopy[k] = v
+			delete(params, k)
+		}
+		if params != nil {
+			params["q"] = "0.8"
+		}
+		exact2 := append(make([]byte, 0, len(b)), b...)
+		mtAgain, paramsAgain := parse.Mediatype(exact2)
+		same := string(mtAgain) == mtCopy && len(paramsAgain) == len(paramsCopy)
+		for k, v := range paramsAgain {
+			same = same && paramsCopy[k] == v
+		}
+		if !same {
+			t.Fatalf("Mediatype(%q) gave (%q, %v); a second call, after the caller had changed the map it was given, gives (%q, %v)", b, mtCopy, paramsCopy, mtAgain, paramsAgain)
+		}
 		mt, data, err := parse.DataURI(append([]byte(nil), b...))
 		if err != nil && (mt != nil || data != nil) {
 			t.Fatalf("DataURI(%q) returns data together with error %v", b, err)
